@@ -351,7 +351,7 @@ example : AList.lookup 5 (applyEvs [] (((reactorReload wDown cfgNew none).1.esta
   decide
 /-- reloading the SAME file successfully puts nothing on the wire -/
 example : (((reactorReload wLive cfgOld none).1.loopTop 1).drain 1).2 = [] := by decide
-/-- F3 on its own: `replace_reload([A/x],[A/y])` without the parse-time insertion announces nothing. -/
+/-- F3 on its own: `replace_reload([A/x],[A/y])` without the insertion by `attach_ribs()` announces nothing. -/
 example : (((Sess.init true [1]).step (.add (rt 1 1 1 1) false)).1.drain.1.step
     (.reload [rt 1 1 1 1] [rt 1 1 2 1])).1.drain.2 = [] := by decide
 
